@@ -10,6 +10,7 @@ import (
 	"fmt"
 	"strconv"
 	"strings"
+	"sync"
 
 	r "github.com/DemoHn/Zn/pkg/runtime"
 	"github.com/DemoHn/Zn/pkg/value"
@@ -87,8 +88,13 @@ type fmtCase struct {
 	Rep  int      `json:"rep"`
 }
 
-var fmtNums = []float64{1.5, -2.25, 0, 1234.5678, 0.000012345, 123456789, -0.5, 1e21, 2.675, 100}
-var fmtLit = map[string]string{"x": "文", "#": "#", "+": "+", ".": ".", "2": "2", "E": "E", "%": "%", "{": "{", "}": "}"}
+var fmtNums = []float64{1.5, -2.25, 0, 1234.5678, 0.000012345, 123456789, -0.5, 1e21, 2.675, 100,
+	// products with 100 that sit next to a rounding tie, that are not exact, tiny and huge magnitudes
+	0.575, 0.07, 1.005, 1.5e-14, 1e300, 0.285, -0.145, 5e-324, 0.0035, 1e-7}
+var fmtLit = map[string]string{"x": "文", "#": "#", "+": "+", ".": ".", "2": "2", "0": "0", "E": "E", "%": "%", "{": "{", "}": "}", "_": " "}
+
+// representatives of the blank symbol "_" (one per case, chosen by the case's rep number)
+var fmtBlanks = []string{" ", "\t", "\n", "\u3000", "\u00a0", "\r", "  ", "\r\n", "\u2003", " \t"}
 
 func renderNum(p fmtPlan, v float64) string {
 	sign := ""
@@ -120,6 +126,8 @@ func renderNum(p fmtPlan, v float64) string {
 	return "?"
 }
 
+var fmtLitMu sync.Mutex
+
 const fmtProg = "输入甲、乙\n输出甲 % 乙\n"
 
 func handleFmt(raw json.RawMessage) interface{} {
@@ -128,6 +136,9 @@ func handleFmt(raw json.RawMessage) interface{} {
 		return map[string]interface{}{"obs": "harness-error", "detail": err.Error()}
 	}
 	var sb strings.Builder
+	fmtLitMu.Lock()
+	defer fmtLitMu.Unlock()
+	fmtLit["_"] = fmtBlanks[c.Rep%len(fmtBlanks)]
 	for _, s := range c.Tpl {
 		sb.WriteString(fmtLit[s])
 	}
@@ -146,8 +157,15 @@ func handleFmt(raw json.RawMessage) interface{} {
 		}
 		return b.String()
 	}
-	// shape 1: numbers
-	{
+	// shape 1: numbers (a template with at most one placeholder gets every number of the pool)
+	reps := []int{c.Rep}
+	if c.NPh <= 1 && c.Err == "" && c.NPh > 0 {
+		reps = reps[:0]
+		for q := range fmtNums {
+			reps = append(reps, q)
+		}
+	}
+	for _, rep := range reps {
 		args := []r.Element{}
 		var want strings.Builder
 		k := 0
@@ -155,7 +173,7 @@ func handleFmt(raw json.RawMessage) interface{} {
 			if sg.T == "lit" {
 				want.WriteString(litOf(sg.S))
 			} else {
-				v := fmtNums[(c.Rep+k)%len(fmtNums)]
+				v := fmtNums[(rep+k)%len(fmtNums)]
 				args = append(args, value.NewNumber(v))
 				if sg.Plan.Verb == "disp" {
 					want.WriteString(value.NewNumber(v).String())
@@ -168,7 +186,11 @@ func handleFmt(raw json.RawMessage) interface{} {
 				k++
 			}
 		}
-		shapes = append(shapes, shape{"numbers", args, want.String(), c.Err != ""})
+		name := "numbers"
+		if len(reps) > 1 {
+			name = fmt.Sprintf("number-%d", rep)
+		}
+		shapes = append(shapes, shape{name, args, want.String(), c.Err != ""})
 	}
 	// shape 2: texts / other plain values: numeric directives must be rejected
 	{
